@@ -192,11 +192,12 @@ def table() -> dict[str, Prop]:
              "fold (FOLD, RESUB); definition, link and image share the destination / title helpers and normalizeLink (SIB); the "
              "recorded map of a definition obeys the map identity (MAP); the definition's text is cut by getLines, never by a raw "
              "slice across lines that would keep the prefixes of enclosing containers (ONELINE); the number of lines a definition "
-             "claims sums line-feed counts of its raw source text only, never of decoded text (NLCOUNT)",
+             "claims sums line-feed counts of its raw source text only, never of decoded text, and the scans that count move one "
+             "character at a time, leaving no character untested for LF (NLCOUNT)",
              [RF.rule_env, RF.rule_refkey, RF.rule_fold, RF.rule_resub, RF.rule_sib, MP.rule_map],
              not_decided="that parsing with a seeded env equals parsing the prepended definitions (equality of two parses), that the "
                          "reference form and the inline form yield equal tokens, and that the line count of a multi-line definition is "
-                         "exact (only its provenance is decided)"))
+                         "exact (decided: its provenance and that no scanned character escapes the LF test)"))
     from .rules import typo_rules as TY
     reg(Prop("C18", "renderer-only options (xhtmlOut, breaks, langPrefix, highlight) are read only by their documented render methods, "
              "by nothing in the parse phase, and the self-closing spelling hangs on xhtmlOut's true branch at every site (OPTREAD); "
